@@ -141,6 +141,32 @@ Fixpoint valid_hosts_run (os : list obs) (i : Z) : Z :=
   | o :: r => if valid_hosts_ok o then valid_hosts_run r (i + 1) else i
   end.
 
+(* a hostname is one hostname however it is spelled: DNS names, NGINX server names and the keys of the TLS
+   passthrough map are case-insensitive, so two keys of Configuration.hosts that differ in letter case only
+   are one host with two owners.  (Ingress hosts are lower case by the API server's own validation, the hosts of
+   the custom resources by the controller's validators.) *)
+Definition lower_ascii (a : Ascii.ascii) : Ascii.ascii :=
+  let n := Ascii.nat_of_ascii a in
+  if (Nat.leb 65 n && Nat.leb n 90)%bool then Ascii.ascii_of_nat (n + 32) else a.
+
+Fixpoint lower (s : string) : string :=
+  match s with
+  | EmptyString => EmptyString
+  | String a r => String (lower_ascii a) (lower r)
+  end.
+
+Fixpoint ci_dup (ks : list string) : bool :=
+  match ks with
+  | [] => false
+  | k :: r => existsb (String.eqb (lower k)) (map lower r) || ci_dup r
+  end.
+
+Fixpoint ci_hosts_run (os : list obs) (i : Z) : Z :=
+  match os with
+  | [] => 0
+  | o :: r => if ci_dup (map fst (ob_hosts o)) then i else ci_hosts_run r (i + 1)
+  end.
+
 (* "at every moment": the controller applies the changes of a batch one at a time (each with its own
    reload); after every single change no host may be configured for two resources *)
 Definition served_hosts (r : resource) : list string :=
@@ -195,7 +221,7 @@ Definition arb_case (id : Z) (c : cfg) (es : list event) (os : list obs) (final 
   let spl_alts := forallb (fun a => lhosts_spec_ok (objs_after (fst a)) (ob_lhosts (snd a))) alts in
   let oi := forallb (fun a => obs_final_eqb final (snd a)) alts in
   [id; mask; mfin; first; sp; spl; if sp_alts then 1 else 0; if spl_alts then 1 else 0; if oi then 1 else 0;
-   Z.of_nat (List.length es); valid_hosts_run os 1; transient_run [] os 1].
+   Z.of_nat (List.length es); valid_hosts_run os 1; transient_run [] os 1; ci_hosts_run os 1].
 
 (* ---- C03: replay the implementation's own change batches into a shadow ---- *)
 
